@@ -41,24 +41,8 @@ struct PRec {
 impl Writer<SimWorld> for PRec {
     type Cli = cli::Empty;
     async fn handle_event(&mut self, ev: parser::Result<Event<event::Cucumber<SimWorld>>>, _: &cli::Empty) {
-        let e = self.rec.record(&ev);
-        if self.seen_finished {
-            self.after_fin.set(self.after_fin.get() + 1);
-        }
-        let (mut st, mut pe, mut hk) = self.failed.get();
-        match &e.k {
-            K::RunFinished => self.seen_finished = true,
-            K::StepFailed { .. } if e.retries.is_none_or(|r| r.1 == 0) => st += 1,
-            K::ParseError(_) => pe += 1,
-            K::HookFailed(..) => hk += 1,
-            _ => {}
-        }
-        self.failed.set((st, pe, hk));
-        self.core.progress();
-        self.events.borrow_mut().push(e);
-        self.polls.borrow_mut().push(self.core.stats.borrow().root_polls);
-        drop(ev);
-        // slow consumer, as in world A
+        // A writer doing its I/O first (slow consumer, as in world A): the event is taken note of only
+        // after the await, so a `handle_event` future that is dropped half-way loses it.
         let pm = self.core.knobs.consumer_pm;
         if pm > 0 {
             let stall = {
@@ -76,6 +60,23 @@ impl Writer<SimWorld> for PRec {
                 self.consumer_busy.set(false);
             }
         }
+        let e = self.rec.record(&ev);
+        if self.seen_finished {
+            self.after_fin.set(self.after_fin.get() + 1);
+        }
+        let (mut st, mut pe, mut hk) = self.failed.get();
+        match &e.k {
+            K::RunFinished => self.seen_finished = true,
+            K::StepFailed { .. } if e.retries.is_none_or(|r| r.1 == 0) => st += 1,
+            K::ParseError(_) => pe += 1,
+            K::HookFailed(..) => hk += 1,
+            _ => {}
+        }
+        self.failed.set((st, pe, hk));
+        self.core.progress();
+        self.events.borrow_mut().push(e);
+        self.polls.borrow_mut().push(self.core.stats.borrow().root_polls);
+        drop(ev);
     }
 }
 
@@ -175,7 +176,7 @@ pub fn run_world_p(plan: &Rc<Plan>) -> Result<History, String> {
         consumer_busy: Rc::clone(&consumer_busy),
         failed: Rc::new(Cell::new((0, 0, 0))),
     };
-    let opts = || cli::Opts { re_filter: None, tags_filter: None, parser: cli::Empty, runner: runa::build_cli(plan), writer: cli::Empty, custom: cli::Empty };
+    let opts = || cli::Opts { re_filter: None, tags_filter: plan.cfg.tags_filter.as_deref().map(|t| t.parse().expect("harness: tag expression")), parser: cli::Empty, runner: runa::build_cli(plan), writer: cli::Empty, custom: cli::Empty };
     let base: Cuc = Cucumber::custom(SimParser(stream), SimRunner::default(), wr);
     // Order of the builder calls: the CLI options last (what the documentation shows), or first.
     let cuc = match plan.seed % 3 {
